@@ -451,12 +451,17 @@ pub fn matrix_segment<Ty: EdgeType + 'static, Null: Nullable<Wrapped = i32> + 's
             let w = next();
             let e = json!({"op":"add_node","w":w});
             log.about_to(&e);
-            (e, pan(guard(|| ri(g.add_node(w).index()))))
+            if rng.chance(1, 3) {
+                // try_add_node: the same contract below the index limit (the driver stays below it)
+                (e, pan(guard(|| match g.try_add_node(w) { Ok(i) => ri(i.index()), Err(_) => json!(["err_s", "NodeIxLimit"]) })))
+            } else {
+                (e, pan(guard(|| ri(g.add_node(w).index()))))
+            }
         } else if r < 560 {
             let (a, b, w) = (pick(rng), if rng.chance(1, 8) { usize::MAX } else { pick(rng) }, next());
             let a2 = a;
             let b = if b == usize::MAX { a2 } else { b };
-            let mut which = *rng.pick(&["add_edge", "update_edge", "update_edge", "try_update_edge"]);
+            let mut which = *rng.pick(&["add_edge", "update_edge", "update_edge", "try_update_edge", "add_or_update_edge"]);
             let (a, b) = if let Some(Some(ab)) = fop { ab } else { (a, b) };
             // add_edge on an existing edge is a documented panic (the state afterwards is not specified)
             if which == "add_edge" && g.has_edge(ni(a), ni(b)) { which = "update_edge"; }
@@ -465,6 +470,7 @@ pub fn matrix_segment<Ty: EdgeType + 'static, Null: Nullable<Wrapped = i32> + 's
             let ret = match which {
                 "add_edge" => pan(guard(|| { g.add_edge(ni(a), ni(b), w); rs("ok") })),
                 "update_edge" => pan(guard(|| match g.update_edge(ni(a), ni(b), w) { Some(o) => rint(o as i64), None => rnone() })),
+                "add_or_update_edge" => pan(guard(|| match g.add_or_update_edge(ni(a), ni(b), w) { Ok(Some(o)) => json!(["ok_i", o]), Ok(None) => json!(["ok_none"]), Err(_) => json!(["err_s", "NodeMissed"]) })),
                 _ => pan(guard(|| match g.try_update_edge(ni(a), ni(b), w) { Ok(Some(o)) => json!(["ok_i", o]), Ok(None) => json!(["ok_none"]), Err(_) => json!(["err_s", "NodeMissed"]) })),
             };
             (e, ret)
@@ -491,6 +497,18 @@ pub fn matrix_segment<Ty: EdgeType + 'static, Null: Nullable<Wrapped = i32> + 's
         } else if r < 825 {
             g.clear();
             (json!({"op":"clear"}), rs("ok"))
+        } else if r < 840 && live.len() == nb && live.len() >= 2 {
+            // extend_with_edges on a hole-free graph, existing endpoints, absent pairs (add_edge panics on a present one)
+            let mut edges: Vec<(usize, usize, i32)> = vec![];
+            for _ in 0..1 + rng.below(3) {
+                let (a, b) = (pick(rng), pick(rng));
+                let dup = edges.iter().any(|&(x, y, _)| (x, y) == (a, b) || (!directed && (x, y) == (b, a)));
+                if !g.has_edge(ni(a), ni(b)) && !dup { edges.push((a, b, next())); }
+            }
+            let e = json!({"op":"extend","edges":edges.iter().map(|x| json!([x.0, x.1, x.2])).collect::<Vec<_>>()});
+            log.about_to(&e);
+            let ret = pan(guard(|| { g.extend_with_edges(edges.iter().map(|&(a, b, w)| (ni(a), ni(b), w))); rs("ok") }));
+            (e, ret)
         } else if r < 850 {
             // NotZero is not Clone, so the matrix cannot be cloned generically: touch node_weight_mut instead
             (json!({"op":"noeffect","which":"len"}), rs("ok"))
